@@ -3,3 +3,6 @@ FUNCS = ["ConfigInformation.set", "ConfigInformation.set_meta", "TypeConfig.add_
          "ConfigInformation.seal.Sealer.preprocess", "ConfigInformation.seal.Sealer.postprocess", "HashComputer.compute"]
 LEVEL = "proof"
 TRUSTED = []
+
+from bounded.wire import run_c14
+BOUNDED = [("freeze after seal/submit on enumerated graphs", run_c14)]
